@@ -943,7 +943,8 @@ func partD(run *ev.Run) {
 	}
 	// honest sessions (several, so that both nonce orders occur)
 	loSeen, hiSeen := 0, 0
-	for i := 0; i < 8; i++ {
+	longDone := map[bool]bool{}
+	for i := 0; i < 8 || (i < 64 && (loSeen == 0 || hiSeen == 0)); i++ {
 		sc, herr, rp, realKey, rawKey := session(rawMode{Name: "honest"})
 		if sc == nil {
 			// the byte-level peer is an independent implementation of the documented handshake (X25519 exchange,
@@ -1003,6 +1004,34 @@ func partD(run *ev.Run) {
 				run.Violation("wire-format-stream-mismatch", fmt.Sprintf("the real side read %d bytes (err %v, panic %v) for %d bytes sealed by the byte-level peer", len(back), e, pn, sz), nil)
 			}
 			run.Add("evaluations", 2)
+		}
+		// a long stream through the independent framing, once per nonce order: the byte-level peer counts its
+		// nonces with its own arithmetic, so the real end's counters must carry like the documented ones
+		// (300 frames cross the wrap of the low nonce byte twice; thorough 33100 cross the second byte's)
+		if !longDone[rp.isLo] {
+			longDone[rp.isLo] = true
+			nLong := run.Pick(300, 33100)
+			for k := 0; k < nLong; k++ {
+				data := []byte{byte(k), byte(k >> 8), byte(k >> 16)}
+				if n, err, pn := safeWrite(scEp, data); n != len(data) || err != nil || pn != nil {
+					run.Violation("write-error", fmt.Sprintf("long stream: Write %d = %d, %v, %v", k, n, err, pn), nil)
+					break
+				}
+				chunk, err := rp.open()
+				if err != nil || !bytes.Equal(chunk, data) {
+					run.Violation("wire-format-long-stream-mismatch", fmt.Sprintf("frame %d of a stream of one-frame writes by the real end cannot be opened by the byte-level peer with the documented nonce sequence (%v)", k, err), map[string]interface{}{"frame": k, "direction": "real->peer", "peer_has_low_ephemeral_key": rp.isLo})
+					break
+				}
+				rp.ep.out.set(false, false, nil)
+				rp.ep.Write(rp.seal(len(data), data))
+				back, e, _, pn := readUntilError(sc)
+				if pn != nil || e != errEmpty || !bytes.Equal(back, data) {
+					run.Violation("wire-format-long-stream-mismatch", fmt.Sprintf("frame %d of a stream sealed by the byte-level peer with the documented nonce sequence is not delivered by the real end (%d bytes, err %v, panic %v)", k, len(back), e, pn), map[string]interface{}{"frame": k, "direction": "peer->real", "peer_has_low_ephemeral_key": rp.isLo})
+					break
+				}
+				run.Add("evaluations", 2)
+			}
+			run.Add("raw_peer_long_stream_frames", 2*nLong)
 		}
 		run.Outcome("rawpeer:honest-accepted")
 		// oversized chunk lengths, correctly sealed
@@ -1508,6 +1537,7 @@ func main() {
 	run.Set("partB_wall_s", time.Since(tA).Seconds())
 	t0 := time.Now()
 	partC(run)
+	partCLong(run)
 	run.Set("partC_wall_s", time.Since(t0).Seconds())
 	t0 = time.Now()
 	partD(run)
